@@ -46,6 +46,7 @@ DerivedOK(r, name) ==
    /\ Chk(<<name, "pieceSets">>, \A s \in Sq : r.pbb[s+1] = b[s], r.pbb)
    /\ Chk(<<name, "colourSets">>, \A s \in Sq : r.cbb[s+1] = ColourCode(b[s]), r.cbb)
    /\ Chk(<<name, "occupied">>, r.occOk, r.occOk)
+   /\ Chk(<<name, "matIdFromCounts">>, r.matCntOk, r.matCntOk)
 
 TMeta == Ev("Meta") /\ pv' = Tr[l].pv /\ UNCHANGED <<pos, stack>>
 TReset == Ev("Reset") /\ pos' = PosOfRec(Tr[l]) /\ stack' = <<>> /\ UNCHANGED pv
